@@ -3,10 +3,13 @@ HEADER = '''(* C08  Every emitted frame is spec-conformant and round-trips throu
    Proof/RegpSpecLemmas.v, Proof/RegpFraming.v; model Model/Regp.v; independent reading of doc/regp.txt: Model/RegpSpec.v. *)'''
 IMPORTS = '''From Ufw Require Import Base.Bits Base.Errno Model.Crc Model.ByteBuffer Model.Endpoints Model.Varint Model.Slip Model.Lenp
   Model.Regp Model.RegpSpec Proof.LenpLemmas Proof.RegpFraming Proof.RegpLemmas Proof.RegpSpecLemmas.
+From Coq Require Import ZArith String List.
+From Ufw Require Import Base.Cexpr Gen.Consts Gen.RegpMotvGen Proof.RegpMotvSweep Proof.RegpMotvT.
 From Coq Require Import Bool Lia.
 Local Open Scope N_scope.
 Local Open Scope bool_scope.'''
 ITEMS = [
+ ('C08_T_first_header_word', 'make_motv_tie_source', 'TRANSLATOR TIE (Gen/RegpMotvGen.v is regenerated from src/register-protocol.c on every check): the first header word that make_motv assembles with shifts and ors in 16/32-bit arithmetic - version, frame type, option bits, meta code - is the number the model computes, for every instance, memory semantics, meta code (8 bits, of which the frame keeps 4), frame type and block size; the enumeration constants and MSEM_* macros are the ones tools/consts2coq.py reads from the source'),
  ('C08_emitters_are_conforming_frames', 'emit_eq', 'every emitter (read/write requests 8/16 bit, acknowledge, eleven error responses, meta) sends framing(header ++ payload) of one header encoder'),
  ('C08_emitters_conform', 'emit_conforming', 'with arguments in range, the frame is conforming: existing type/code pair, field ranges, payload size = block size in the frame\'s word size'),
  ('C08_header_round_trip', 'parse_emitted', 'the receiver\'s header parser reads back type, option bits, code, sequence number, address, block size and both checksums'),
